@@ -51,6 +51,12 @@ def check_object(P, ver, s, order_log=None):
     if ver != "2":
         variants.append(("clean-prefix-true", lambda: o.clean_vector(output_prefix=True), True))
         variants.append(("clean-noprefix", lambda: o.clean_vector(output_prefix=False), False))
+    # the order in which the forms are first requested on an instance must not matter
+    k = P.evaluations % 6
+    if len(variants) == 3:
+        import itertools
+        variants = [variants[i] for i in list(itertools.permutations(range(3)))[k]]
+        P.stratum("clean-forms-first-call:" + variants[0][0])
     clean = None
     for name, fn, with_prefix in variants:
         ok, c = obs.call(fn)
@@ -89,6 +95,10 @@ def check_object(P, ver, s, order_log=None):
         if order_log is not None:
             ms = [f.split(":")[0] for f in got]
             order_log(ver, ms, s)
+    if ver != "2":
+        ok, again = obs.call(o.clean_vector)
+        if ok and clean is not None and again != clean:
+            P.violation("clean-structure", "C07:v%s:clean_vector-changes-between-calls" % ver, case, observed=[clean, again])
     if ver != "2" and clean is not None:
         ok, c2 = obs.call(lambda: o.clean_vector(output_prefix=False))
         if ok and isinstance(c2, str) and clean != prefix + c2:
